@@ -67,6 +67,7 @@ type vqStmt struct {
 	Desc      bool
 	Limit     int
 	Offset    int
+	Excluded  string // known finding avoided by construction (counted by the caller)
 }
 
 func (s vqStmt) text(db, rp, m string) string {
@@ -625,6 +626,9 @@ func TestVerifC11QueryLayouts(t *testing.T) {
 		nst := rapid.IntRange(2, 5).Draw(rt, "nstmts")
 		for si := 0; si < nst; si++ {
 			s := vqDrawStmt(rt, hosts, span, uniqueTS)
+			if s.Excluded != "" {
+				stats.Exclude(s.Excluded)
+			}
 			want := vqReference(s, all)
 			vqDropSelectorTime(s, want)
 			skipRef := s.Fill == "linear" // edges of linear fill are not pinned down by the documentation
@@ -735,6 +739,13 @@ func vqDrawStmt(rt *rapid.T, hosts []string, span int64, uniqueTS bool) vqStmt {
 		}
 	}
 	tieSafe := uniqueTS || (len(s.GroupTags) == 2 || s.Star)
+	if (s.Call == "first" || s.Call == "last") && s.GroupTime == 0 && !tieSafe {
+		// known finding first-last-tie-depends-on-layout: without GROUP BY time the engine answers first()/last()
+		// per shard from a sorted merge with LIMIT 1, which breaks a tie between series by series order, while
+		// the reducers that combine shards keep the larger value: excluded by construction (directed test below)
+		s.Excluded = "first-last-tie-depends-on-layout"
+		s.Call = map[string]string{"first": "min", "last": "max"}[s.Call]
+	}
 	if rapid.IntRange(0, 2).Draw(rt, "desc") == 0 {
 		s.Desc = true
 	}
@@ -799,5 +810,53 @@ func TestVerifC11KFSlimit(t *testing.T) {
 	stats.Sample(res)
 	if res["l1"] != res["l3"] {
 		stats.KnownReproduced("slimit-applied-per-shard", fmt.Sprintf("SELECT last(i) ... GROUP BY * SLIMIT 2 returns %d series when all data is in one shard and %d series when the series are spread over hourly shards", res["l1"], res["l3"]))
+	}
+}
+
+
+// Directed campaign for known finding first-last-tie-depends-on-layout.
+func TestVerifC11KFFirstLastTie(t *testing.T) {
+	stats := verifkit.For("C11", "TestVerifC11KFFirstLastTie", "directed: six series with one point each at the same timestamp and different values; SELECT last(i) / first(i) FROM m without GROUP BY time on the one-shard layout and on the layouts that spread the series over several shards")
+	defer stats.Flush()
+	cl, err := vkSharedCluster()
+	if err != nil {
+		vkSetupFailed(t, "cluster: %v", err)
+	}
+	db := fmt.Sprintf("c11kft_%d", os.Getpid())
+	if err := vqEnsureDB(cl, db); err != nil {
+		vkSetupFailed(t, "%v", err)
+	}
+	var pts []vqPoint
+	for i, h := range []string{"a", "b", "c"} {
+		for j, r := range []string{"x", "y"} {
+			pts = append(pts, vqPoint{Host: h, Region: r, TS: 7205, F: float64((i*2+j)*7%11) + 0.5, I: int64((i*2+j)*7%11 + 1), S: "s", B: true})
+		}
+	}
+	for _, l := range vqLayouts {
+		if err := cl.nodes[0].srv.PointsWriter.WritePointsPrivileged(db, l.Name, models.ConsistencyLevelAll, vqModelPoints("m", pts)); err != nil {
+			vkSetupFailed(t, "write: %v", err)
+		}
+	}
+	cl.syncMeta()
+	differs := ""
+	for _, call := range []string{"last", "first"} {
+		res := map[string]string{}
+		for _, l := range vqLayouts {
+			got, errs := vqRun(cl, 0, db, fmt.Sprintf("SELECT %s(i) FROM %s.%s.m", call, db, l.Name))
+			if errs != "" {
+				t.Fatalf("%s query: %s", verifkit.Sig("fault-free-query-error"), errs)
+			}
+			res[l.Name] = got.String()
+			stats.Case(true, call+":"+l.Name+":"+got.String(), "directed")
+		}
+		for _, l := range vqLayouts {
+			if res[l.Name] != res["l1"] && differs == "" {
+				differs = fmt.Sprintf("SELECT %s(i) over six series tied at one timestamp returns %s with all series in one shard and %s on layout %s", call, strings.TrimSpace(res["l1"]), strings.TrimSpace(res[l.Name]), l.Name)
+			}
+		}
+	}
+	stats.Sample(map[string]string{"layouts": "l1..l4", "difference": differs})
+	if differs != "" {
+		stats.KnownReproduced("first-last-tie-depends-on-layout", differs)
 	}
 }
